@@ -231,7 +231,7 @@ bool CellBounds(const vx::Cell& cell, int tier, vx::Bounds& b) {
   const bool timed = !cell.Is("wait", "Wait");
   const bool one = cell.Is("form", "one");
   b.P = one ? (tier == 0 ? 3 : 99) : (tier == 0 ? 2 : 3);
-  b.S = cell.Str("form").find("shared") != std::string::npos ? 1 : 0;
+  b.S = 1;
   b.T = timed ? (cell.Is("twice", "1") ? 2 : 1) : 0;
   return true;
 }
